@@ -1,5 +1,6 @@
 (* C17 - Persisted tasks are not executed while products exist and stay quiet afterwards. *)
 From Verif Require Import Base.Prelude Base.Graph Model.Sorter Model.Expr Model.Engine Model.EngineRun.
+From Verif Require Import Model.EngineP Model.EnginePRun Proofs.EnginePRefute.
 From Verif Require Import Proofs.GraphProofs Proofs.SorterProofs Proofs.EngineTask Proofs.EngineLoop
      Proofs.EngineBuild Proofs.EngineDag Proofs.EngineRefute.
 
@@ -76,6 +77,14 @@ Example C17_example :
   r_out (run_task hbody cfg0 E [] [] (r_world (run_task hbody cfg0 E [] [] w t NoFault)) t NoFault) = OSkipUnchanged.
 Proof. vm_compute. split; reflexivity. Qed.
 
+(* F30 (known finding): with a directory pattern as PRODUCT a persist task fails in every build and
+   is never executed (Model/EngineP.v follows the code: the persist hook raises AttributeError) *)
+Theorem C17_persist_with_pattern_product_refuted :
+  map (fun o => match o with (x, r, l, _, _) => (x, r, l) end) (run_phist persist_pattern_history) =
+  [(1, [(1, ocode OFail); (3, ocode OSkipPrevFailed)], []); (1, [(1, ocode OFail); (3, ocode OSkipPrevFailed)], [])]%N.
+Proof. exact persist_pattern_producer_refuted. Qed.
+
+Print Assumptions C17_persist_with_pattern_product_refuted.
 Print Assumptions C17_persist_spec.
 Print Assumptions C17_recorded_rows_match.
 Print Assumptions C17_persist_then_unchanged.
